@@ -606,26 +606,19 @@ impl<F: Read + Write + Seek> Package<F> {
         if self.tables.contains_key(&table_name) {
             already_exists!("Table {:?} already exists", table_name);
         }
-        self.insert_rows(
-            Insert::into(COLUMNS_TABLE_NAME).rows(
-                columns
-                    .iter()
-                    .enumerate()
-                    .map(|(index, column)| {
-                        vec![
-                            Value::Str(table_name.clone()),
-                            Value::Int(1 + index as i32),
-                            Value::Str(column.name().to_string()),
-                            Value::Int(column.bitfield()),
-                        ]
-                    })
-                    .collect(),
-            ),
-        )?;
-        self.insert_rows(
-            Insert::into(TABLES_TABLE_NAME)
-                .row(vec![Value::Str(table_name.clone())]),
-        )?;
+        let columns_rows: Vec<Vec<Value>> = columns
+            .iter()
+            .enumerate()
+            .map(|(index, column)| {
+                vec![
+                    Value::Str(table_name.clone()),
+                    Value::Int(1 + index as i32),
+                    Value::Str(column.name().to_string()),
+                    Value::Int(column.bitfield()),
+                ]
+            })
+            .collect();
+        let tables_rows = vec![vec![Value::Str(table_name.clone())]];
         let validation_rows: Vec<Vec<Value>> = columns
             .iter()
             .map(|column| {
@@ -667,12 +660,49 @@ impl<F: Read + Write + Seek> Package<F> {
                 ]
             })
             .collect();
+        // Make sure that all the new catalog rows can be stored before
+        // inserting any of them, so that a failure leaves nothing behind.
+        let has_validation_table = table_name == VALIDATION_TABLE_NAME
+            || self.tables.contains_key(VALIDATION_TABLE_NAME);
+        self.check_rows_are_valid(COLUMNS_TABLE_NAME, &columns_rows)?;
+        self.check_rows_are_valid(TABLES_TABLE_NAME, &tables_rows)?;
+        if self.tables.contains_key(VALIDATION_TABLE_NAME) {
+            self.check_rows_are_valid(
+                VALIDATION_TABLE_NAME,
+                &validation_rows,
+            )?;
+        }
+        self.insert_rows(Insert::into(COLUMNS_TABLE_NAME).rows(columns_rows))?;
+        self.insert_rows(Insert::into(TABLES_TABLE_NAME).rows(tables_rows))?;
         let long_string_refs = self.string_pool.long_string_refs();
         let table = Table::new(table_name.clone(), columns, long_string_refs);
         self.tables.insert(table_name, table);
-        self.insert_rows(
-            Insert::into(VALIDATION_TABLE_NAME).rows(validation_rows),
-        )?;
+        if has_validation_table {
+            self.insert_rows(
+                Insert::into(VALIDATION_TABLE_NAME).rows(validation_rows),
+            )?;
+        }
+        Ok(())
+    }
+
+    fn check_rows_are_valid(
+        &self,
+        table_name: &str,
+        rows: &[Vec<Value>],
+    ) -> io::Result<()> {
+        let table = self.tables.get(table_name).unwrap();
+        for values in rows.iter() {
+            for (column, value) in table.columns().iter().zip(values.iter()) {
+                if !column.is_valid_value(value) {
+                    invalid_input!(
+                        "{} is not a valid value for column {:?} of table {:?}",
+                        value,
+                        column.name(),
+                        table_name
+                    );
+                }
+            }
+        }
         Ok(())
     }
 
